@@ -33,6 +33,7 @@ mod world;
 mod sim;
 mod cmd_system;
 mod cmd_provider;
+mod cmd_blocks;
 mod cmd_classify;
 
 mod cmd_tlv;
@@ -48,6 +49,7 @@ fn main() {
         "classify" => cmd_classify::run(),
         "system" => cmd_system::run(),
         "provider" => cmd_provider::run(),
+        "blocks" => cmd_blocks::run(),
         "mode" => println!("{}", if cfg!(debug_assertions) { "checked" } else { "wrapping" }),
         _ => {
             eprintln!("usage: tramp-harness <tlv|fee|mode>");
